@@ -345,13 +345,13 @@ example : vectorFill 4 [7, 7] [1, 3, 3] = [7, 8, 0, 2] ∧ vectorFill 2 [1, 1, 5
 /-- `h.equals(o)` holds exactly when the dimensions agree and every bin of `o` is present in `h` with the same count
     (stated on the maps only: the iteration order of the unordered_map cannot matter) -/
 theorem C19_equals_spec (d : Bool) (h o : Hist) :
-    equalsH d h o = true ↔ d = true ∧ ∀ k ∈ o.keys, h.find? k = some (o.get k) := by
+    equalsH d h o = true ↔ d = true ∧ ∀ k ∈ o.keys, h.findKey? k = some (o.get k) := by
   unfold equalsH
   rw [equals_foldl]
   simp [Hist.keys]
 
 /-- equality is order-independent: histograms that agree as maps give the same answer -/
-theorem C19_equals_map_invariant (d : Bool) (h h' o o' : Hist) (hh : ∀ k, h.find? k = h'.find? k)
+theorem C19_equals_map_invariant (d : Bool) (h h' o o' : Hist) (hh : ∀ k, h.findKey? k = h'.findKey? k)
     (hk : ∀ k, k ∈ o.keys ↔ k ∈ o'.keys) (hg : ∀ k, o.get k = o'.get k) :
     equalsH d h o = equalsH d h' o' := by
   have : equalsH d h o = true ↔ equalsH d h' o' = true := by
@@ -366,12 +366,12 @@ example : equalsH true [([1], 2), ([3], 1)] [([3], 1), ([1], 2)] = true := by de
 /-- a histogram equals itself -/
 theorem C19_equals_refl (h : Hist) : equalsH true h h = true := by
   rw [C19_equals_spec]
-  exact ⟨rfl, fun k hk => find?_of_mem h k hk⟩
+  exact ⟨rfl, fun k hk => findKey?_of_mem h k hk⟩
 
 /-- equal answers imply equal counts on every bin of `o` -/
 theorem C19_equals_sound (d : Bool) (h o : Hist) (he : equalsH d h o = true) (k : Key) (hk : k ∈ o.keys) :
     h.get k = o.get k :=
-  find?_eq_some_get h k _ (((C19_equals_spec d h o).mp he).2 k hk)
+  findKey?_eq_some_get h k _ (((C19_equals_spec d h o).mp he).2 k hk)
 
 /-- as coded the test is one-sided: bins of `*this` that `other` lacks are not looked at (observation, outside the property) -/
 theorem C19_equals_one_sided_witness :
@@ -475,12 +475,12 @@ theorem C19_nearest_key_spec (h : Hist) (k : Key) :
   simp only [List.nil_append] at inv
   refine ⟨?_, ?_, ?_⟩
   · intro hk
-    simp [nearestKey, (find?_isSome_iff h k).mpr hk]
+    simp [nearestKey, (findKey?_isSome_iff h k).mpr hk]
   · intro hk hall
-    have hs : (h.find? k).isSome = false := by
-      cases e : (h.find? k).isSome with
+    have hs : (h.findKey? k).isSome = false := by
+      cases e : (h.findKey? k).isSome with
       | false => rfl
-      | true => exact absurd ((find?_isSome_iff h k).mp e) hk
+      | true => exact absurd ((findKey?_isSome_iff h k).mp e) hk
     simp only [nearestKey, hs, Bool.false_eq_true, if_false]
     cases ho : (h.foldl (nearestStep k) (true, k)).1 with
     | true => exact (inv.1 ho).1
@@ -488,10 +488,10 @@ theorem C19_nearest_key_spec (h : Hist) (k : Key) :
       obtain ⟨hm, hle, _⟩ := inv.2 ho
       rw [hall _ hm] at hle; exact absurd hle (by simp)
   · intro hk ⟨u, hu, hku⟩
-    have hs : (h.find? k).isSome = false := by
-      cases e : (h.find? k).isSome with
+    have hs : (h.findKey? k).isSome = false := by
+      cases e : (h.findKey? k).isSome with
       | false => rfl
-      | true => exact absurd ((find?_isSome_iff h k).mp e) hk
+      | true => exact absurd ((findKey?_isSome_iff h k).mp e) hk
     simp only [nearestKey, hs, Bool.false_eq_true, if_false]
     cases ho : (h.foldl (nearestStep k) (true, k)).1 with
     | true =>
